@@ -1,4 +1,5 @@
-(* C03 lemmas: the gate is exactly "limits hold and every assertion holds". *)
+(* C03 lemmas, part 1: the specification `gate` is exactly "limits hold and every inequality holds",
+   and the comparison operators build assertions that mean the inequalities they are written as. *)
 From Coq Require Import List String Bool Arith Lia.
 From PAFC01 Require Import ModelTree.
 From PAFC03 Require Import Model.
@@ -7,12 +8,17 @@ Import ListNotations.
 Section P.
   Variable V : Type.
   Variable bin : binop -> V -> V -> V.
+  Variable bin_ok : binop -> V -> V -> bool.
   Variable ltb leb : V -> V -> bool.
-  Notation gate := (gate V bin ltb leb).
-  Notation holds := (holds V bin ltb leb).
-  Notation operand := (operand V bin).
+  Variable of_bool : bool -> V.
+  Notation gate := (gate V bin bin_ok ltb leb of_bool).
+  Notation holds := (holds V bin bin_ok ltb leb of_bool).
+  Notation operand := (operand V bin bin_ok).
   Notation within := (within V leb).
-  Notation all_hold := (all_hold V bin ltb leb).
+  Notation all_hold := (all_hold V bin bin_ok ltb leb of_bool).
+  Notation cmp_nodes := (cmp_nodes V ltb leb).
+  Notation cmp_consts := (cmp_consts V ltb leb).
+  Notation chain := (chain V ltb leb).
 
   Definition vec_args (n : node V) (vec : list V) := zip_args V (ordered_ids V n) vec.
 
@@ -27,60 +33,129 @@ Section P.
       destruct (H q lo hi v Hin Ha) as [A B]. rewrite A, B. reflexivity.
   Qed.
 
+  (* limits are given for every parameter of the vector: then `within` speaks about every entry *)
+  Definition covers (lims : list (limit V)) (ids : list nat) : Prop :=
+    forall q, In q ids -> exists lo hi, In (q, (lo, hi)) lims.
+
+  Lemma within_covers (lims : list (limit V)) (ids : list nat) (args : nat -> option V) :
+    covers lims ids -> within lims args = true ->
+    forall q v, In q ids -> args q = Some v -> exists lo hi, In (q, (lo, hi)) lims /\ leb lo v = true /\ leb v hi = true.
+  Proof.
+    intros C W q v Hq Ha. destruct (C q Hq) as [lo [hi Hin]]. exists lo, hi. split; [exact Hin|].
+    exact (proj1 (within_spec lims args) W q lo hi v Hin Ha).
+  Qed.
+
   Lemma all_hold_spec (asserts : list (assertion V)) (args : nat -> option V) :
-    all_hold args asserts = true <-> forall a, In a asserts -> holds args a = Some true.
+    all_hold args asserts = true <-> forall a, In a asserts -> holds args a = Ok true.
   Proof.
     unfold Model.all_hold. rewrite forallb_forall. split.
-    - intros H a Hin. specialize (H a Hin). destruct (holds args a) as [[|]|]; congruence.
+    - intros H a Hin. specialize (H a Hin). destruct (holds args a) as [[|]| |]; congruence.
     - intros H a Hin. rewrite (H a Hin). reflexivity.
   Qed.
 
   Lemma holds_lt (args : nat -> option V) (l g : node V) :
-    holds args (ALt l g) = Some true <->
-    exists x y, operand args l = Some x /\ operand args g = Some y /\ ltb x y = true.
+    holds args (ALt l g) = Ok true <->
+    exists x y, operand args l = Ok x /\ operand args g = Ok y /\ ltb x y = true.
   Proof.
     simpl. split.
-    - destruct (operand args l) as [x|]; [|discriminate]. destruct (operand args g) as [y|]; [|discriminate].
+    - destruct (operand args l) as [x| |]; [|discriminate|discriminate].
+      destruct (operand args g) as [y| |]; [|discriminate|discriminate].
       intro H. exists x, y. repeat split; congruence.
     - intros [x [y [-> [-> H]]]]. rewrite H. reflexivity.
   Qed.
 
   Lemma holds_le (args : nat -> option V) (l g : node V) :
-    holds args (ALe l g) = Some true <->
-    exists x y, operand args l = Some x /\ operand args g = Some y /\ leb x y = true.
+    holds args (ALe l g) = Ok true <->
+    exists x y, operand args l = Ok x /\ operand args g = Ok y /\ leb x y = true.
   Proof.
     simpl. split.
-    - destruct (operand args l) as [x|]; [|discriminate]. destruct (operand args g) as [y|]; [|discriminate].
+    - destruct (operand args l) as [x| |]; [|discriminate|discriminate].
+      destruct (operand args g) as [y| |]; [|discriminate|discriminate].
       intro H. exists x, y. repeat split; congruence.
     - intros [x [y [-> [-> H]]]]. rewrite H. reflexivity.
   Qed.
 
+  Definition is_lit (a : assertion V) : bool := match a with ALit _ => true | _ => false end.
+
   Lemma holds_and (args : nat -> option V) (a b : assertion V) :
-    holds args (AAnd a b) = Some true <-> holds args a = Some true /\ holds args b = Some true.
+    is_lit b = false ->
+    (holds args (AAnd a b) = Ok true <-> holds args a = Ok true /\ holds args b = Ok true).
   Proof.
-    simpl. destruct (holds args a) as [[|]|]; split; try tauto; try (intros [? ?]; discriminate); intro; discriminate.
+    intro L. cbn [Model.holds].
+    destruct (holds args a) as [[|]| |]; destruct b; try discriminate L;
+      split; try tauto; try (intros [? ?]; discriminate); try (intro; discriminate).
   Qed.
 
-  Lemma holds_lit (args : nat -> option V) (b : bool) : holds args (ALit b) = Some true <-> b = true.
+  Lemma holds_lit (args : nat -> option V) (b : bool) : holds args (ALit b) = Ok true <-> b = true.
   Proof. simpl. split; congruence. Qed.
 
-  (* (a < b) < c  means  a < b and b < c; (a < b) > c  means  a < b and c < a *)
-  Lemma chain_lt_spec (args : nat -> option V) (a b c : node V) (t : assertion V) :
-    chain_lt V (ALt a b) c = Some t ->
-    (holds args t = Some true <-> holds args (ALt a b) = Some true /\ holds args (ALt b c) = Some true).
-  Proof. unfold chain_lt. simpl. intro H. inversion H; subst. apply holds_and. Qed.
+  (* ---------- x op y built by the operators means the inequality on the values ---------- *)
+  Lemma cmp_nodes_spec (args : nat -> option V) (op : cmpop) (x y : node V) (t : assertion V) :
+    arith_like V x || arith_like V y = true ->
+    cmp_nodes op x y = Some t ->
+    (holds args t = Ok true <->
+     exists a b, operand args x = Ok a /\ operand args y = Ok b /\ cmp_consts op a b = true).
+  Proof.
+    intros A H.
+    assert (E : t = cmp_build V op x y).
+    { unfold Model.cmp_nodes in H. rewrite A in H.
+      destruct x; destruct y; simpl in A; try discriminate A; inversion H; reflexivity. }
+    subst t. destruct op; unfold cmp_build, Model.cmp_consts.
+    - apply holds_lt.
+    - apply holds_le.
+    - rewrite holds_lt. split; intros [a [b [Ha [Hb Hc]]]]; exists b, a; auto.
+    - rewrite holds_le. split; intros [a [b [Ha [Hb Hc]]]]; exists b, a; auto.
+  Qed.
 
-  Lemma chain_gt_spec (args : nat -> option V) (a b c : node V) (t : assertion V) :
-    chain_gt V (ALt a b) c = Some t ->
-    (holds args t = Some true <-> holds args (ALt a b) = Some true /\ holds args (ALt c a) = Some true).
-  Proof. unfold chain_gt. simpl. intro H. inversion H; subst. apply holds_and. Qed.
+  (* a two-link chain: (a ? b) op c  means  a ? b  and  pivot op c, where the pivot is the greater
+     operand of the first link for < / <= and its lower operand for > / >= *)
+  Definition pivot_of (first : assertion V) (op : cmpop) : option (node V) :=
+    match first with
+    | ALt l g | ALe l g => Some (match op with CLt | CLe => g | CGt | CGe => l end)
+    | _ => None
+    end.
 
-  Lemma chain_le_spec (args : nat -> option V) (a b c : node V) (t : assertion V) :
-    chain_le V (ALe a b) c = Some t ->
-    (holds args t = Some true <-> holds args (ALe a b) = Some true /\ holds args (ALe b c) = Some true).
-  Proof. unfold chain_le. simpl. intro H. inversion H; subst. apply holds_and. Qed.
+  Lemma chain2_spec (args : nat -> option V) (first : assertion V) (op : cmpop) (p c : node V) (t : assertion V) :
+    pivot_of first op = Some p ->
+    arith_like V p || arith_like V c = true ->
+    chain first op c = Some t ->
+    (holds args t = Ok true <->
+     holds args first = Ok true /\
+     exists a b, operand args p = Ok a /\ operand args c = Ok b /\ cmp_consts op a b = true).
+  Proof.
+    intros Hp A H.
+    assert (exists s, cmp_nodes op p c = Some s /\ t = AAnd first s /\ is_lit s = false) as [s [Hs [-> L]]].
+    { destruct first; try discriminate Hp; simpl in Hp; inversion Hp; subst p; unfold Model.chain in H;
+        match type of H with option_map _ ?X = _ => destruct X as [s|] eqn:E; [|discriminate H] end;
+        inversion H; subst; exists s; (split; [reflexivity|split; [reflexivity|]]);
+        unfold Model.cmp_nodes in E; rewrite A in E;
+        match type of E with (match ?u with _ => _ end) = _ => destruct u end;
+        match type of E with context [match ?u with _ => _ end] => destruct u | _ => idtac end;
+        simpl in A; try discriminate A; inversion E; destruct op; reflexivity. }
+    rewrite (holds_and args first s L). rewrite (cmp_nodes_spec args op p c s A Hs). tauto.
+  Qed.
 
-  (* ---------- the gate ---------- *)
+  (* PREPARED for proposed_fixes/C03-chain-further: chaining an assertion of ANY length once more adds exactly
+     one inequality, against the greatest (< / <=) or lowest (> / >=) operand of the chain so far *)
+  Lemma chain_fixed_spec (args : nat -> option V) (first : assertion V) (e e' : node V * node V) (op : cmpop)
+        (c : node V) (t : assertion V) :
+    let p := match op with CLt | CLe => snd e | CGt | CGe => fst e end in
+    arith_like V p || arith_like V c = true ->
+    chain_fixed V ltb leb first e op c = Some (t, e') ->
+    (holds args t = Ok true <->
+     holds args first = Ok true /\
+     exists a b, operand args p = Ok a /\ operand args c = Ok b /\ cmp_consts op a b = true) /\
+    e' = match op with CLt | CLe => (fst e, c) | CGt | CGe => (c, snd e) end.
+  Proof.
+    intros p A H. unfold chain_fixed in H. fold p in H.
+    destruct (cmp_nodes op p c) as [s|] eqn:Hs; [|discriminate H]. inversion H; subst t e'. split; [|reflexivity].
+    assert (L : is_lit s = false).
+    { unfold Model.cmp_nodes in Hs. rewrite A in Hs.
+      destruct p as [| | | | |]; destruct c as [| | | | |]; simpl in A; try discriminate A; inversion Hs; destruct op; reflexivity. }
+    rewrite (holds_and args first s L). rewrite (cmp_nodes_spec args op p c s A Hs). tauto.
+  Qed.
+
+  (* ---------- the specification gate ---------- *)
   Lemma gate_ok_iff (lims : list (limit V)) (asserts : list (assertion V)) (n : node V) (vec : list V) (i : ival V) :
     gate false lims asserts n vec = VOk i <->
     List.length vec = prior_count V n /\ within lims (vec_args n vec) = true /\
@@ -89,15 +164,13 @@ Section P.
     unfold Model.gate, vec_args.
     destruct (Nat.eqb_spec (List.length vec) (prior_count V n)) as [L|L]; simpl.
     - destruct (Model.within V leb lims _) eqn:W; simpl.
-      + destruct (Model.all_hold V bin ltb leb _ asserts) eqn:A; simpl.
+      + destruct (Model.all_hold V bin bin_ok ltb leb of_bool _ asserts) eqn:A; simpl.
         * split; [intro H; inversion H; subst; auto|intros [_ [_ [_ ->]]]; reflexivity].
         * split; [discriminate|intros [_ [_ [H _]]]; discriminate].
       + split; [discriminate|intros [_ [H _]]; discriminate].
     - split; [discriminate|intros [H _]; contradiction].
   Qed.
 
-  (* otherwise the library's fit exception: a limit exception when a value is outside its limits,
-     else an assertion failure; never anything else for a vector of the right length *)
   Lemma gate_rejects (lims : list (limit V)) (asserts : list (assertion V)) (n : node V) (vec : list V) :
     List.length vec = prior_count V n ->
     (within lims (vec_args n vec) = false -> gate false lims asserts n vec = VLimit) /\
@@ -109,13 +182,11 @@ Section P.
     - intros W A. rewrite W, A. reflexivity.
   Qed.
 
-  (* explicitly ignoring limits/assertions always produces the instance *)
   Lemma gate_ignore_total (lims : list (limit V)) (asserts : list (assertion V)) (n : node V) (vec : list V) :
     List.length vec = prior_count V n ->
     gate true lims asserts n vec = VOk (inst V bin (vec_args n vec) n).
   Proof. intro L. unfold Model.gate, vec_args. rewrite (proj2 (Nat.eqb_eq _ _) L). reflexivity. Qed.
 
-  (* the verdict does not depend on the order in which levels list their assertions *)
   Lemma all_hold_app (args : nat -> option V) (a b : list (assertion V)) :
     all_hold args (a ++ b) = all_hold args a && all_hold args b.
   Proof. unfold Model.all_hold. apply forallb_app. Qed.
